@@ -76,6 +76,12 @@ pub struct CfgSpec {
 pub enum LOp {
     Log { n: u16, target: String, level: u8 },
     SetConfig { v: u32 },
+    /// (world G) a second initialisation attempt with configuration `v`: it
+    /// must be rejected and must leave the installed logger and the facade alone
+    SecondInit { v: u32 },
+    /// (world G) application code sets the facade's max level directly; the
+    /// next reconfiguration must install its own maximum again
+    Perturb { level: u8 },
 }
 
 #[derive(Clone, Debug, Serialize, Deserialize, PartialEq)]
@@ -804,6 +810,7 @@ pub fn execute(scn: &Scn, opts: &ExecOpts) -> Outcome {
                 match op {
                     LOp::Log { n, target, level } => do_log(&sh, RecId { tid: ti as u16, n }, &target, level),
                     LOp::SetConfig { v } => do_set_config(&sh, v, false),
+                    LOp::SecondInit { .. } | LOp::Perturb { .. } => {}
                 }
                 kernel::point("op.done");
             }
